@@ -458,6 +458,10 @@ func init() {
 			seq = append(seq, hOp{int(p[0].(float64)), int(p[1].(float64))})
 		}
 		c := int(rp["cap"].(float64))
+		if wn, ok := rp["warm_session"].(float64); ok && wn > 0 {
+			// the history was found after a long session: replay the session first (plain sequential calls)
+			warmSession(ev.NewRun("replay", "replay"), int(wn))
+		}
 		if js, ok := rp["junks"].([]any); ok && len(js) > 0 {
 			for _, j := range js {
 				b, _ := hex.DecodeString(j.(string))
